@@ -78,7 +78,9 @@ def build_and_audit(prop, tier, regen=None):
   problems = []
   if regen:
     regen()
-  rc, out = sh(["lake", "build"], cwd=LEAN, timeout=3000)
+  # build only this property's theorems and the driver: a stale or broken generated table of another
+  # property (C11/C16 regenerate theirs from /repo) must not break this one
+  rc, out = sh(["lake", "build", "TflModel.Props." + prop, "tfldriver"], cwd=LEAN, timeout=3000)
   if rc != 0:
     problems.append({"kind": "lake-build", "detail": out[-3000:]})
     return {"ok": False, "problems": problems, "theorems": []}
